@@ -7,6 +7,7 @@ import TwigGen.FilterFacts
 import TwigGen.MapRanges
 import TwigGen.Pools
 import TwigGen.Prec
+import TwigGen.ProcState
 import TwigGen.Registry
 import TwigGen.Sandbox
 import TwigGen.Shared
